@@ -251,10 +251,31 @@ impl PredicatePushdownRule {
             LogicalOperator::Join(join) => {
                 let left_tables = self.collect_table_names(join.left);
                 let right_tables = self.collect_table_names(join.right);
-                let pred_tables = self.collect_predicate_tables(predicate);
+                let Some(pred_tables) = self.collect_predicate_tables(predicate) else {
+                    // the predicate has a part whose table cannot be determined (unqualified
+                    // column, subquery, ...): it must stay above the join
+                    return Ok(None);
+                };
+
+                // A WHERE predicate may only move below a join on a side whose rows the join
+                // never NULL-extends or drops: the preserved side of an outer join.
+                use crate::sql::ast::JoinType;
+                let can_push_left = matches!(
+                    join.join_type,
+                    JoinType::Inner | JoinType::Cross | JoinType::Left
+                );
+                let can_push_right = matches!(
+                    join.join_type,
+                    JoinType::Inner | JoinType::Cross | JoinType::Right
+                );
 
                 let refs_left = pred_tables.iter().any(|t| left_tables.contains(*t));
                 let refs_right = pred_tables.iter().any(|t| right_tables.contains(*t));
+                if (refs_left && !refs_right && !can_push_left)
+                    || (refs_right && !refs_left && !can_push_right)
+                {
+                    return Ok(None);
+                }
 
                 if refs_left && !refs_right {
                     let new_filter = crate::sql::planner::LogicalFilter {
@@ -332,35 +353,60 @@ impl PredicatePushdownRule {
         }
     }
 
-    fn collect_predicate_tables<'a>(&self, expr: &'a crate::sql::ast::Expr<'a>) -> SmallVec<[&'a str; 4]> {
+    /// Tables referenced by `expr`, or `None` when some part of it cannot be attributed to a
+    /// table (unqualified column, subquery, unsupported expression kind).
+    fn collect_predicate_tables<'a>(&self, expr: &'a crate::sql::ast::Expr<'a>) -> Option<SmallVec<[&'a str; 4]>> {
         let mut tables: SmallVec<[&'a str; 4]> = SmallVec::new();
-        self.collect_expr_tables(expr, &mut tables);
-        tables
+        if self.collect_expr_tables(expr, &mut tables) {
+            Some(tables)
+        } else {
+            None
+        }
     }
 
-    fn collect_expr_tables<'a>(&self, expr: &'a crate::sql::ast::Expr<'a>, tables: &mut SmallVec<[&'a str; 4]>) {
+    fn collect_expr_tables<'a>(&self, expr: &'a crate::sql::ast::Expr<'a>, tables: &mut SmallVec<[&'a str; 4]>) -> bool {
         use crate::sql::ast::Expr;
         match expr {
+            Expr::Literal(_) | Expr::Parameter(_) => true,
             Expr::Column(col) => {
                 if let Some(table) = col.table {
                     tables.push(table);
+                    true
+                } else {
+                    false
                 }
             }
             Expr::BinaryOp { left, right, .. } => {
-                self.collect_expr_tables(left, tables);
-                self.collect_expr_tables(right, tables);
+                self.collect_expr_tables(left, tables) && self.collect_expr_tables(right, tables)
             }
-            Expr::UnaryOp { expr, .. } => {
-                self.collect_expr_tables(expr, tables);
+            Expr::UnaryOp { expr, .. } => self.collect_expr_tables(expr, tables),
+            Expr::IsNull { expr, .. } => self.collect_expr_tables(expr, tables),
+            Expr::Cast { expr, .. } => self.collect_expr_tables(expr, tables),
+            Expr::Between { expr, low, high, .. } => {
+                self.collect_expr_tables(expr, tables)
+                    && self.collect_expr_tables(low, tables)
+                    && self.collect_expr_tables(high, tables)
+            }
+            Expr::Like { expr, pattern, escape, .. } => {
+                self.collect_expr_tables(expr, tables)
+                    && self.collect_expr_tables(pattern, tables)
+                    && escape.map_or(true, |e| self.collect_expr_tables(e, tables))
+            }
+            Expr::InList { expr, list, .. } => {
+                self.collect_expr_tables(expr, tables)
+                    && list.iter().all(|e| self.collect_expr_tables(e, tables))
+            }
+            Expr::IsDistinctFrom { left, right, .. } => {
+                self.collect_expr_tables(left, tables) && self.collect_expr_tables(right, tables)
             }
             Expr::Function(func) => {
                 if let crate::sql::ast::FunctionArgs::Args(args) = &func.args {
-                    for arg in args.iter() {
-                        self.collect_expr_tables(arg.value, tables);
-                    }
+                    args.iter().all(|arg| self.collect_expr_tables(arg.value, tables))
+                } else {
+                    true
                 }
             }
-            _ => {}
+            _ => false,
         }
     }
 
